@@ -192,3 +192,82 @@ contract('parso.tree.BaseNode.get_last_leaf', params={'self': 'ref:BaseNode'}, r
 
 contract('parso.tree.NodeOrLeaf.search_ancestor', params={'self': 'ref:NodeOrLeaf', 'node_types': 'any'},
          returns='ref:BaseNode', props=['C11'])
+
+
+# ------------------------------------------------------------------------------ positions of nodes (C03)
+# ghost spos(n) / epos(n): for a leaf its own (line, column) and advance(start, value); for an interior node those of
+# its first / last child.  NodeOrLeaf.start_pos / end_pos (abstract) return them; every override refines that.
+_sp0, _sp1, _ep0, _ep1 = F('spos0', I, I), F('spos1', I, I), F('epos0', I, I), F('epos1', I, I)
+_brk = F('breaks', S, I)
+_tl = F('tail', S, I)
+
+
+@theory('treepos')
+def treepos_axioms(eng, st):
+    n = z3.Int('n')
+    ax = []
+    line = lambda x: st.rd('line', x)          # noqa
+    col = lambda x: st.rd('column', x)         # noqa
+    val = lambda x: st.rd('value', x, S)       # noqa
+    leaf = z3.And(n != 0, _isleaf(n))
+    inner = z3.And(n != 0, z3.Not(_isleaf(n)))
+    b, t = _brk(val(n)), _tl(val(n))
+    ax.append(z3.ForAll([n], z3.Implies(leaf, z3.And(
+        _sp0(n) == line(n), _sp1(n) == col(n),
+        _ep0(n) == z3.If(b == 0, line(n), line(n) + b),
+        _ep1(n) == z3.If(b == 0, col(n) + z3.Length(val(n)), t))), patterns=[_sp0(n)]))
+    ax.append(z3.ForAll([n], z3.Implies(leaf, z3.And(
+        _ep0(n) == z3.If(b == 0, line(n), line(n) + b),
+        _ep1(n) == z3.If(b == 0, col(n) + z3.Length(val(n)), t))), patterns=[_ep0(n)]))
+    c0 = _child(st, n, 0)
+    cl = _child(st, n, _nch(st, n) - 1)
+    ax.append(z3.ForAll([n], z3.Implies(inner, z3.And(_sp0(n) == _sp0(c0), _sp1(n) == _sp1(c0))), patterns=[_sp0(n)]))
+    ax.append(z3.ForAll([n], z3.Implies(inner, z3.And(_ep0(n) == _ep0(cl), _ep1(n) == _ep1(cl))), patterns=[_ep0(n)]))
+    return ax
+
+
+@specfn('spos')
+def sp_spos(eng, st, n):
+    from pv.values import VTuple
+    return VTuple([VInt(_sp0(n.t)), VInt(_sp1(n.t))])
+
+
+@specfn('epos')
+def sp_epos(eng, st, n):
+    from pv.values import VTuple
+    return VTuple([VInt(_ep0(n.t)), VInt(_ep1(n.t))])
+
+
+POS = dict(theories=['tree', 'treepos'], props=['C03'])
+contract('parso.tree.NodeOrLeaf.start_pos', kind='property', params={'self': 'ref:NodeOrLeaf'}, returns='pos', trusted=True,
+         requires=['self is not None'], ensures=['result == spos(self)'], note='abstract property', **POS)
+contract('parso.tree.NodeOrLeaf.end_pos', kind='property', params={'self': 'ref:NodeOrLeaf'}, returns='pos', trusted=True,
+         requires=['self is not None'], ensures=['result == epos(self)'], note='abstract property', **POS)
+contract('parso.tree.BaseNode.start_pos', kind='property', params={'self': 'ref:BaseNode'}, returns='pos',
+         ensures=['result == spos(self)'], **POS)
+contract('parso.tree.BaseNode.end_pos', kind='property', params={'self': 'ref:BaseNode'}, returns='pos',
+         ensures=['result == epos(self)'], **POS)
+# the leaf implementations against the same ghost (their advance() form is proved in tree_pos.py)
+contract('parso.tree.Leaf.start_pos#ghost', kind='property', params={'self': 'ref:Leaf'}, returns='pos',
+         ensures=['result == spos(self)'], **POS)
+contract('parso.tree.Leaf.end_pos#ghost', kind='property', params={'self': 'ref:Leaf'}, returns='pos',
+         ensures=['result == epos(self)'], **POS)
+contract('parso.python.tree._LeafWithoutNewlines.end_pos#ghost', kind='property',
+         params={'self': 'ref:_LeafWithoutNewlines'}, returns='pos', requires=['breaks(self.value) == 0'],
+         ensures=['result == epos(self)'], **POS)
+
+# start of the prefix = end of the previous leaf (or line - breaks(prefix), column 0 for the first leaf)
+contract('parso.tree.NodeOrLeaf.get_start_pos_of_prefix', params={'self': 'ref:NodeOrLeaf'}, returns='pos', trusted=True,
+         requires=['self is not None'], ensures=[], note='abstract method', **POS)
+contract('parso.tree.Leaf.get_start_pos_of_prefix', params={'self': 'ref:Leaf'}, returns='pos',
+         ensures=['implies(lo(self) == lo(root(self)) , result == (self.line - breaks(self.prefix), 0))',
+                  'implies(lo(self) != lo(root(self)), exists(lambda p: p != 0 and is_leaf(p) and hi(p) == lo(self) - 1 '
+                  'and root(p) is root(self) and result == epos(p)))'], **POS)
+contract('parso.tree.BaseNode.get_start_pos_of_prefix', params={'self': 'ref:BaseNode'}, returns='pos', ensures=[], **POS)
+
+contract('parso.tree.NodeOrLeaf.search_ancestor', params={'self': 'ref:NodeOrLeaf', 'node_types': 'list:str'},
+         returns='ref:BaseNode',
+         ensures=['implies(result is not None, result.type in node_types and depth(result) < depth(self) and root(result) is root(self))'],
+         loops={0: dict(invariant=['implies(node is not None, depth(node) < depth(self) and root(node) is root(self))'],
+                        decreases='ite(node is None, 0, depth(node) + 1)')},
+         theories=['tree'], props=['C11'])
